@@ -372,6 +372,8 @@ def run(ctx):
                 check_support_decision(ctx, F)
                 check_coders(ctx, F)
                 check_huffman(ctx, F)
+                from vlib import errdisc
+                errdisc.check(ctx, F, floor=120)     # the impossible-symbol error (and every other) reaches the caller
             else:
                 # thorough tier: the Python-side models go through the same rule
                 n0 = len(ctx.obs)
